@@ -48,7 +48,10 @@ T = {
                            rel=("voff", "neg", "toff", "local"), nb="window_flat", nextra=1),
     "attenuated_signal_test": dict(al=SIG4, cfgs=[dict(suspect_threshold=1.3, fail_threshold=0.6, test_period=120),
                                                   dict(suspect_threshold=1.3, fail_threshold=0.6, test_period=180, check_type="range", min_obs=2),
-                                                  dict(suspect_threshold=1.3, fail_threshold=0.6), dict(suspect_threshold=2.5, fail_threshold=1.3, check_type="range")],
+                                                  dict(suspect_threshold=1.3, fail_threshold=0.6), dict(suspect_threshold=2.5, fail_threshold=1.3, check_type="range"),
+                                                  # thresholds exactly ON attainable window ranges (1, 2, 3): equality must survive every transformation
+                                                  dict(suspect_threshold=3, fail_threshold=1, test_period=180, check_type="range"),
+                                                  dict(suspect_threshold=2, fail_threshold=2, test_period=120, check_type="range", min_obs=1)],
                                    rel=("voff", "neg", "toff", "local"), nb="window_att"),
     "density_inversion_test": dict(al=(0.0, 1.0, 2.0, NAN), cfgs=[dict(suspect_threshold=-0.5, fail_threshold=-1), dict(suspect_threshold=0.5),
                                                                   dict(suspect_threshold=-1.5, fail_threshold=-0.5), dict(fail_threshold=0)],
